@@ -209,7 +209,9 @@ class Scenario:
                 late_lines.append(f'"{second}" = [\'{plist[1]}\']')
                 continue
             if fn in self.split_entries and len(plist) == 1:
-                fp_lines.append(f'"{self.globs[fn]}" = [\'{plist[0]}\']')
+                line = f'"{self.globs[fn]}" = [\'{plist[0]}\']'
+                if line not in fp_lines:  # several files may be reached through one glob entry
+                    fp_lines.append(line)
                 continue
             pats = ", ".join("'" + p + "'" for p in plist)
             fp_lines.append(f'"{fn}" = [{pats}]')
@@ -552,6 +554,65 @@ def replay_seed(seed, prop):
     return prop not in r
 
 
+_TWO = {"notes.txt": ["notes", "release \x01 here", 'pep = "\x02"'], "src/mod.py": ["# module", '__version__ = "\x01"', "tail"]}
+_TWO_OCC = {"notes.txt": [(1, "version"), (2, "pep440")], "src/mod.py": [(1, "quoted")]}
+# Directed scenarios run by every shadow layer next to the seeded ones: situations that seeded generation reaches
+# only now and then (each one was needed by some seeded change), kept deterministic here.
+DIRECTED = [
+    ("tag goes backwards", dict(pattern="vMAJOR.MINOR.PATCH[-TAG]", current="v1.2.3-beta", flags=["--tag", "alpha"])),
+    ("tag goes backwards, dry", dict(pattern="vMAJOR.MINOR.PATCH[-TAG]", current="v1.2.3-beta", flags=["--tag", "alpha"], dry=True)),
+    ("tag forward", dict(pattern="vMAJOR.MINOR.PATCH[-TAG]", current="v1.2.3-beta", flags=["--tag", "rc"])),
+    ("one file through two non-adjacent entries, explicit first", dict(files=_TWO, occ=_TWO_OCC, split_entries={"notes.txt": "explicit_first"})),
+    ("one file through two non-adjacent entries, glob first", dict(files=_TWO, occ=_TWO_OCC, split_entries={"notes.txt": "glob_first"})),
+    ("recursive glob and ./ spelling", dict(split_entries={"src/mod.py": "glob_first", "notes.txt": "explicit_first"}, globs={"src/mod.py": "src/**/*.py", "notes.txt": "./notes.txt"})),
+    (
+        "one recursive glob reaching files at depth 0 and depth 1",
+        dict(
+            files={"src/mod.py": ["# module", '__version__ = "\x01"', "tail"], "src/pkg/inner.py": ["# inner", '__version__ = "\x01"'], "notes.txt": ["notes", "release \x01 here", 'pep = "\x02"']},
+            occ={"src/mod.py": [(1, "quoted")], "src/pkg/inner.py": [(1, "quoted")], "notes.txt": [(1, "version"), (2, "pep440")]},
+            file_patterns={"src/mod.py": ['__version__ = "{version}"'], "src/pkg/inner.py": ['__version__ = "{version}"'], "notes.txt": ["release {version} here", 'pep = "{pep440_version}"']},
+            split_entries={"src/mod.py": "glob_first", "src/pkg/inner.py": "glob_first"},
+            globs={"src/mod.py": "src/**/*.py", "src/pkg/inner.py": "src/**/*.py", "notes.txt": "*.txt"},
+            nfiles=3,
+        ),
+    ),
+    ("doubled slash spelling", dict(split_entries={"src/mod.py": "glob_first"}, globs={"src/mod.py": "src//mod.py", "notes.txt": "*.txt"})),
+    ("form feed / line separator characters inside lines", dict(files={"src/mod.py": ["# page\x0cbreak", '__version__ = "\x01"', "tail\u2028more"], "notes.txt": ["notes vt\x0btab", "release \x01 here", 'pep = "\x02"']})),
+    ("the same, dry", dict(dry=True, files={"src/mod.py": ["# page\x0cbreak", '__version__ = "\x01"', "tail\u2028more"], "notes.txt": ["notes vt\x0btab", "release \x01 here", 'pep = "\x02"']})),
+    ("files with different line endings", dict(sep_of={"src/mod.py": "\r\n", "notes.txt": "\r"})),
+    ("files with different line endings, other order", dict(sep_of={"src/mod.py": "\n", "notes.txt": "\r\n"}, final_newline=False)),
+    ("BOM at the start of a file", dict(files={"src/mod.py": ["\ufeff# module", '__version__ = "\x01"', "tail"], "notes.txt": ["notes", "release \x01 here", 'pep = "\x02"']})),
+    ("new version shorter than the old one", dict(current="0.1.10", flags=["--minor"])),
+    ("new version shorter, tag dropped", dict(pattern="vMAJOR.MINOR.PATCH[-TAG]", current="v1.2.3-beta", flags=["--tag", "final"])),
+    ("pattern matched in the first file, unmatched in the second", dict(file_patterns={"src/mod.py": ['__version__ = "{version}"'], "notes.txt": ["release {version} here", '__version__ = "{version}"']}, occ={"src/mod.py": [(1, "quoted")], "notes.txt": [(1, "version")]}, fault="nomatch_one", fault_file="notes.txt")),
+    ("hook killed by a signal", dict(pre_hook="signal")),
+    ("post hook fails", dict(post_hook="fail")),
+    ("commit fails", dict(fail_cmd="commit")),
+    ("unknown placeholder in --commit-message, dry", dict(commit_message="release {version}", dry=True)),
+    ("unknown placeholder in --commit-message", dict(commit_message="release {version}")),
+    ("dirty unrelated file, not allowed", dict(dirty=" M notes_other.txt\n")),
+    ("dirty unrelated file, allowed", dict(dirty=" M notes_other.txt\n", allow_dirty=True)),
+    ("untracked unrelated file", dict(dirty="?? untracked.txt\n")),
+    ("push", dict(push=True)),
+    ("no commit", dict(commit=False, tag=False)),
+    ("legacy pattern", dict(pattern="{semver}", current="0.1.9")),
+    ("calendar pattern", dict(pattern="YYYY.BUILD[-TAG]", current="2020.1009-beta", flags=[])),
+]
+
+
+def _directed_result(i):
+    name, over = DIRECTED[i]
+    r = check_scenario(0, sc=plain_scenario(**over))
+    if any(not k.startswith("_") for k in r):
+        r.setdefault("_detail", {})
+        r["_detail"] = dict(r["_detail"], directed=name)
+    return r
+
+
+def replay_directed(i, prop):
+    return prop not in _directed_result(i)
+
+
 def run_shadow(prop, tier, seed, n_quick=160, n_thorough=4000):
     import multiprocessing as mp
 
@@ -559,6 +620,10 @@ def run_shadow(prop, tier, seed, n_quick=160, n_thorough=4000):
     seeds = [seed * 1000003 + i for i in range(n)]
     with mp.get_context("fork").Pool(16) as pool:
         results = pool.map(check_scenario, seeds, chunksize=4)
+        dres = pool.map(_directed_result, range(len(DIRECTED)))
+    seeds = seeds + [("directed", i) for i in range(len(DIRECTED))]
+    results = results + dres
+    n = len(seeds)
     bad = [(s, r) for s, r in zip(seeds, results) if prop in r]
     errs = [(s, r) for s, r in zip(seeds, results) if "_error" in r]
     # listed known findings are identified by their witness class ("[class] ..." in the failure text)
@@ -576,12 +641,12 @@ def run_shadow(prop, tier, seed, n_quick=160, n_thorough=4000):
         verdict="held" if not bad and not errs else ("refuted" if bad else "error"),
         cases=n,
         distinct=n,
-        bound=f"{n} seeded projects (seed {seed}): 1..4 files x 1..2 patterns, 4 pattern families, LF/CRLF/CR, flags/--set-version targets, tag lists and scopes, faults (non-matching pattern, missing file, failing git command, failing hooks), fake git on PATH",
+        bound=f"{n - len(DIRECTED)} seeded projects (seed {seed}) + {len(DIRECTED)} directed ones: 1..4 files x 1..2 patterns, 4 pattern families, LF/CRLF/CR, flags/--set-version targets, tag lists and scopes, faults (non-matching pattern, missing file, failing git command, failing hooks), fake git on PATH",
         sample=[dict(seed=seeds[0])],
         witness=[dict(seed=s, problem=r[prop], detail=r.get("_detail")) for s, r in bad[:3]],
         observed=bad[0][1][prop] if bad else None,
         detail=errs[0][1]["_error"] if errs and not bad else None,
-        python_replay=(dict(module="shadows.project", function="replay_seed", args=[bad[0][0], prop]) if bad else None),
+        python_replay=((dict(module="shadows.project", function="replay_directed", args=[bad[0][0][1], prop]) if isinstance(bad[0][0], tuple) else dict(module="shadows.project", function="replay_seed", args=[bad[0][0], prop])) if bad else None),
     )
     if kf:
         out["known_finding"] = kf
